@@ -169,6 +169,32 @@ func genQueriesFor(t *Tape, n int, geo bool, docs []*DocSpec) []qSpec {
 	}
 	var gen func(depth int) qSpec
 	gen = func(depth int) qSpec {
+		if depth > 0 && t.Chance(1, 12, "q.wide") {
+			// a disjunction of more clauses than DisjunctionHeapTakeover (10):
+			// the heap implementation instead of the slice one
+			var cl []qSpec
+			for i, n := 0, 11+t.Draw(5, "q.nwide"); i < n; i++ {
+				if t.Chance(1, 2, "q.wother") {
+					cl = append(cl, termOf(pick()))
+				} else {
+					x := w()
+					cl = append(cl, qSpec{"term body:" + x, func() bluge.Query { return bluge.NewTermQuery(x).SetField("body") }})
+				}
+			}
+			var ds []string
+			for _, q := range cl {
+				ds = append(ds, q.Desc)
+			}
+			min := t.Draw(3, "q.wmin")
+			return qSpec{fmt.Sprintf("bool{should[%s]>=%d}", strings.Join(ds, ", "), min), func() bluge.Query {
+				b := bluge.NewBooleanQuery()
+				for _, q := range cl {
+					b.AddShould(q.Make())
+				}
+				b.SetMinShould(min)
+				return b
+			}}
+		}
 		if depth > 0 && t.Chance(1, 5, "q.flat") {
 			// flat conjunction or disjunction of plain terms, most of them
 			// satisfied by one document
@@ -290,6 +316,7 @@ type answer struct {
 	scores string // uid:score under -_score,uid
 	score  map[string]float64
 	noScore string // uids found with scoring turned off (unadorned bitmap rewrites apply then)
+	page    string // hits 3..5 under the total sort
 }
 
 func uidAndFields(m *search.DocumentMatch) (string, uint64) {
@@ -417,6 +444,25 @@ func (b *build) answer(q qSpec, withScores bool) (*answer, error) {
 		ns = append(ns, u)
 	}
 	a.noScore = strings.Join(ns, ",")
+	// (4c) a page of a small top-N under the total sort (the collector keeps
+	// a list instead of a heap for small sizes, and skips `from` hits)
+	it, err = b.search(bluge.NewTopNSearch(3, q.Make()).SetFrom(2).SortBy([]string{"-num", "tag", "-day", "uid"}))
+	if err != nil {
+		return nil, fmt.Errorf("page: %w", err)
+	}
+	var pg []string
+	for {
+		m, err := it.Next()
+		if err != nil {
+			return nil, fmt.Errorf("page next: %w", err)
+		}
+		if m == nil {
+			break
+		}
+		u, _ := uidAndFields(m)
+		pg = append(pg, u)
+	}
+	a.page = strings.Join(pg, ",")
 	// (5) scores
 	if withScores {
 		it, err = b.search(bluge.NewTopNSearch(1000, q.Make()).SortBy([]string{"-_score", "uid"}))
@@ -561,6 +607,8 @@ func (r *Run) differential1(tag string, A *build, withRecipes bool) {
 			}():
 			case got.noScore != ref.set:
 				r.fail("layout-match-set", fmt.Sprintf("query %s with scoring turned off: build %s matches {%s}, build one-batch (scored) matches {%s} [same builds the other way round: %s scored {%s}, one-batch unscored {%s}]", q.Desc, b.name, got.noScore, ref.set, b.name, got.set, ref.noScore))
+			case got.page != ref.page:
+				r.fail("layout-sort-order", fmt.Sprintf("query %s, top-N of size 3 from 2 under sort -num,tag,-day,uid: build %s returns [%s], build one-batch [%s]", q.Desc, b.name, got.page, ref.page))
 			case got.aggs != ref.aggs:
 				r.fail("layout-aggregations", fmt.Sprintf("query %s: build %s aggregates %q, build one-batch %q", q.Desc, b.name, got.aggs, ref.aggs))
 			case b.scoreMerged && !sameScores(got, ref) && got.set == ref.set:
